@@ -1,6 +1,7 @@
 package main
 
 import (
+	"bufio"
 	"bytes"
 	"context"
 	"fmt"
@@ -71,6 +72,13 @@ func c08behave(w http.ResponseWriter, r *http.Request, st *psim.Stamp) bool {
 	case "slow":
 		time.Sleep(proxyTimeout + 400*time.Millisecond)
 		return false
+	case "delay":
+		// well within the timeout, then an ordinary answer
+		time.Sleep(proxyTimeout / 3)
+		w.Header().Set("X-Stamp-Endpoint", st.Endpoint)
+		w.WriteHeader(201)
+		_, _ = w.Write([]byte("done"))
+		return true
 	}
 	// response shape requested by the client
 	status := 200
@@ -350,5 +358,43 @@ func runC08(rng *rand.Rand, ncases int, emit emitter) error {
 			}
 		}
 	}
+	// a client that half-closes its connection once the request is sent and keeps reading (nc -N, some health
+	// checkers) while the upstream is still working: either the upstream's answer or a gateway error, nothing else
+	for _, route := range []string{"local", "forwarded"} {
+		for _, ep := range []string{"e", "ea"} {
+			for rep := 0; rep < 3; rep++ {
+				s := &Step{Op: "Http", Case: "half-close", Route: route, Target: ep, WantSt: 201}
+				t0 := time.Now()
+				s.Status, s.Note = halfCloseRequest(entry[route].ProxyAddr(), ep)
+				s.TookMs = int(time.Since(t0) / time.Millisecond)
+				s.LimitMs = int(proxyTimeout/time.Millisecond) + 1500
+				emit(s)
+			}
+		}
+	}
 	return nil
+}
+
+func halfCloseRequest(addr, ep string) (int, string) {
+	c, err := net.DialTimeout("tcp", addr, 2*time.Second)
+	if err != nil {
+		return -1, err.Error()
+	}
+	defer c.Close()
+	_ = c.SetDeadline(time.Now().Add(5 * time.Second))
+	req := "POST /half HTTP/1.1\r\nHost: " + addr + "\r\nx-piko-endpoint: " + ep +
+		"\r\nX-Behave: delay\r\nContent-Length: 5\r\nConnection: close\r\n\r\nhello"
+	if _, err := c.Write([]byte(req)); err != nil {
+		return -1, err.Error()
+	}
+	if tc, ok := c.(*net.TCPConn); ok {
+		_ = tc.CloseWrite()
+	}
+	resp, err := http.ReadResponse(bufio.NewReader(c), nil)
+	if err != nil {
+		return -1, err.Error()
+	}
+	defer resp.Body.Close()
+	_, _ = io.ReadAll(resp.Body)
+	return resp.StatusCode, ""
 }
